@@ -194,7 +194,7 @@ pub fn eval_image(log: &BuiltLog, li: usize, m: &M, img: &[u8], st: &mut Stats) 
     let judge = |st: &mut Stats, reader: &str, res: Result<Result<RecoveryScanReport, String>, String>| -> Option<Rel> {
         match res {
             Err(p) => {
-                st.viol(format!("c11:{cls}:{reader}:panic"), json!({"case": case, "panic": p}));
+                st.viol(format!("c11:{cls}:panic:{reader}"), json!({"case": case, "panic": p}));
                 None
             }
             Ok(Err(e)) => {
@@ -206,15 +206,20 @@ pub fn eval_image(log: &BuiltLog, li: usize, m: &M, img: &[u8], st: &mut Stats) 
                 match &rel {
                     Rel::NonPrefix(why) => {
                         st.viol(
-                            format!("c11:{cls}:{reader}:non-prefix-history:{why}"),
+                            format!("c11:{cls}:non-prefix-history:{why}:{reader}"),
                             json!({"case": case, "reader": reader, "returned_commits": rep.transactions.iter().map(|t| mc::hex(&t.commit.commit_digest[..6])).collect::<Vec<_>>(),
                                 "original_commits": log.txs.iter().map(|t| mc::hex(&t.commit.commit_digest[..6])).collect::<Vec<_>>(), "tail": format!("{:?}", rep.tail_posture)}),
                         );
                     }
                     Rel::FullClean => {
-                        if m.byte_level() && reg != "outside" {
+                        if m.appends_after_log() {
                             st.viol(
-                                format!("c11:{}:{reader}:undetected-byte-damage:{reg}", family(m)),
+                                format!("c11:{cls}:trailing-content-silently-ignored:{reader}"),
+                                json!({"case": case, "reader": reader}),
+                            );
+                        } else if m.byte_level() && reg != "outside" {
+                            st.viol(
+                                format!("c11:{}:undetected-byte-damage:{reg}:{reader}", family(m)),
                                 json!({"case": case, "reader": reader, "region": reg}),
                             );
                         } else {
